@@ -113,17 +113,18 @@ def count (s : MacState) : Int × Int :=
   (((s.workers.filter (fun w => w.inList && !w.blocked)).length : Nat),
    ((s.workers.filter (fun w => w.inList && w.blocked)).length : Nat))
 
+/-- charge `e` time units to the states that the representation `(p, b)` = (#processing, #blocked) belongs to -/
+def _root_.FsVerif.MTT.bump (m : MTT) (p b : Int) (e : Nat) : MTT :=
+  let tt1 : MTT := if p = 0 ∧ b = 0 then { m with idle := m.idle + e } else m
+  let tt2 : MTT := if b > 0 ∧ p = 0 then { tt1 with allb := tt1.allb + e } else tt1
+  let tt3 : MTT := if p > 0 then { tt2 with aop := tt2.aop + e } else tt2
+  let tt4 : MTT := if p > 0 ∧ b = 0 then { tt3 with aap := tt3.aap + e } else tt3
+  if b > 0 then { tt4 with aob := tt4.aob + e } else tt4
+
 /-- `update_state_rep(now)` -/
 def updRep (s : MacState) (t : Nat) : MacState :=
   match s.rep, s.last with
-  | some (p, b), some l =>
-    let e := t - l
-    let tt1 : MTT := if p = 0 ∧ b = 0 then { s.tt with idle := s.tt.idle + e } else s.tt
-    let tt2 : MTT := if b > 0 ∧ p = 0 then { tt1 with allb := tt1.allb + e } else tt1
-    let tt3 : MTT := if p > 0 then { tt2 with aop := tt2.aop + e } else tt2
-    let tt4 : MTT := if p > 0 ∧ b = 0 then { tt3 with aap := tt3.aap + e } else tt3
-    let tt5 : MTT := if b > 0 then { tt4 with aob := tt4.aob + e } else tt4
-    { s with tt := tt5, rep := some s.count, last := some t }
+  | some (p, b), some l => { s with tt := s.tt.bump p b (t - l), rep := some s.count, last := some t }
   | _, _ => { s with last := some t }
 
 def occAdd (s : MacState) (t : Nat) : MacState :=
@@ -145,14 +146,6 @@ def requestSlot (s : MacState) (t : Nat) : MacState :=
   let s1 := s.updRep t
   if s1.users < s1.cfg.wc then { s1 with users := s1.users + 1, granted := true, bSlot := true, bpc := .slotWait }
   else { s1 with granted := false, bSlot := false, bpc := .slotWait }
-
-def selIdx (pol : Pol) (rr n : Nat) (a : Ans) : Option Int × Nat × List Call :=
-  match pol with
-  | .const k => (some k, rr, [])
-  | .rr => (some (rr : Int), (rr + 1) % n, [])
-  | .rnd => (a.sels.head?, rr, [])
-  | .user => (a.sels.head?, rr, (a.sels.head?.map fun k => [Call.sel k]).getD [])
-  | .fa => (none, rr, [])
 
 /-- after an item has been pulled: draw the processing delay, spawn the worker, go back for more -/
 def afterPull (s : MacState) (t : Nat) (it : Nat) (a : Ans) (pre : List Call) : MacState × List Call :=
